@@ -1,6 +1,7 @@
 package main
 
 import (
+	"regexp"
 	"fmt"
 	"go/constant"
 	"go/token"
@@ -18,16 +19,23 @@ func init() {
 
 // reviewedPanicSites: function (short name) -> expression (canonical path / description) -> reason.
 // One symbol + one expression + reason each; printed in evidence.
-var reviewedPanicSites = map[string]map[string]reviewedEntry{}
+var reviewedPanicSites = map[string]map[string][]reviewedEntry{}
 
 // reviewed registers a reviewed reason; needs are branch conditions ("<canonical condition>=true|false") the
 // reason depends on: each must hold on a dominating branch edge at every site the entry is used for, otherwise
 // the entry does not apply (the construct is then reported as undischarged: the review has to be redone).
+// Entries are keyed by the enclosing named function: which of its function literals holds the site is not part of the
+// key (their numbering shifts whenever one is added or removed); the entry's conditions tie it to the site.
+var closureIdx = regexp.MustCompile(`\$\d+`)
+
+func reviewedFnKey(fn string) string { return closureIdx.ReplaceAllString(fn, "$$") }
+
 func reviewed(fn, expr, why string, needs ...string) {
+	fn = reviewedFnKey(fn)
 	if reviewedPanicSites[fn] == nil {
-		reviewedPanicSites[fn] = map[string]reviewedEntry{}
+		reviewedPanicSites[fn] = map[string][]reviewedEntry{}
 	}
-	reviewedPanicSites[fn][expr] = reviewedEntry{why: why, needs: needs}
+	reviewedPanicSites[fn][expr] = append(reviewedPanicSites[fn][expr], reviewedEntry{why: why, needs: needs})
 }
 
 type reviewedEntry struct {
@@ -295,35 +303,42 @@ func exprKey(c *Ctx, in ssa.Instruction) string {
 }
 
 func (k *c19) isReviewed(f *ssa.Function, expr string, site ...ssa.Instruction) (string, bool) {
-	m := reviewedPanicSites[short(f.String())]
+	m := reviewedPanicSites[reviewedFnKey(short(f.String()))]
 	if m == nil {
 		return "", false
 	}
-	e, ok := m[expr]
+	es, ok := m[expr]
 	if !ok {
 		return "", false
 	}
-	if len(e.needs) > 0 {
-		if len(site) == 0 || site[0] == nil || site[0].Block() == nil {
-			return "", false
-		}
-		have := map[string]bool{}
-		for _, cnd := range k.c.condsOf(site[0].Block()) {
-			have[cnd] = true
-		}
+	var conds []string
+	haveSite := len(site) > 0 && site[0] != nil && site[0].Block() != nil
+	if haveSite {
+		conds = k.c.condsOf(site[0].Block())
 		if os.Getenv("STCHECK_CONDS") != "" {
-			fmt.Printf("CONDS %s :: %s :: %v\n", short(f.String()), expr, k.c.condsOf(site[0].Block()))
+			fmt.Printf("CONDS %s :: %s :: %v\n", short(f.String()), expr, conds)
 		}
+	}
+	have := map[string]bool{}
+	for _, cnd := range conds {
+		have[cnd] = true
+	}
+	for _, e := range es {
+		if len(e.needs) > 0 && !haveSite {
+			continue
+		}
+		okE := true
 		for _, n := range e.needs {
 			if !have[n] {
-				k.counts["C19-reviewed-entry-guard-missing"]++
-				return "", false
+				okE = false
 			}
 		}
-	} else if os.Getenv("STCHECK_CONDS") != "" && len(site) > 0 && site[0] != nil && site[0].Block() != nil {
-		fmt.Printf("CONDS %s :: %s :: %v\n", short(f.String()), expr, k.c.condsOf(site[0].Block()))
+		if okE {
+			return e.why, true
+		}
 	}
-	return e.why, true
+	k.counts["C19-reviewed-entry-guard-missing"]++
+	return "", false
 }
 
 func runC19(c *Ctx) {
@@ -372,12 +387,14 @@ func runC19(c *Ctx) {
 	// reviewed table: every entry must still bind to a construct (stale entries are reported, not fatal)
 	var rv []string
 	for fn, m := range reviewedPanicSites {
-		for e, w := range m {
-			x := fn + " :: " + e + " :: " + w.why
-			if len(w.needs) > 0 {
-				x += " :: requires on a dominating edge: " + strings.Join(w.needs, " ; ")
+		for e, ws := range m {
+			for _, w := range ws {
+				x := fn + " :: " + e + " :: " + w.why
+				if len(w.needs) > 0 {
+					x += " :: requires on a dominating edge: " + strings.Join(w.needs, " ; ")
+				}
+				rv = append(rv, x)
 			}
-			rv = append(rv, x)
 		}
 	}
 	sort.Strings(rv)
@@ -684,6 +701,17 @@ func (k *c19) atMostLen(v ssa.Value, lenX string) bool {
 	c := k.c
 	if c.Path(v, nil) == lenX {
 		return true
+	}
+	// the builtin min(…, len(X), …)
+	if cl, isC := v.(*ssa.Call); isC {
+		if b, isB := cl.Call.Value.(*ssa.Builtin); isB && b.Name() == "min" {
+			for _, a := range cl.Call.Args {
+				if k.atMostLen(a, lenX) {
+					return true
+				}
+			}
+		}
+		return false
 	}
 	phi, ok := v.(*ssa.Phi)
 	if !ok {
